@@ -11,7 +11,11 @@
 //	ROLE  := (T CLS HOST LAUNCH CFG TR KILL)       a direct-control task of class c<CLS> pinned to host h<HOST> (9 = no such host)
 //	       | (H CLS HOST W AFTER LAUNCH HOOK)      a basic task used as DESTROY (AFTER=1: after_DESTROY) hook at weight W
 //	       | (P)                                   a call started at before_CONFIGURE and awaited at a trigger that never comes
-//	LAUNCH := ok|die|slow   CFG := ok|stay|err   TR := ok|<EV>:stay|<EV>:err   KILL := ok|failed|delay   HOOK := ok|fail
+//	LAUNCH := ok|die|slow   CFG := ok|stay|err   TR := ok|<EV>:stay|<EV>:err   KILL := ok|failed|delay|refuse   HOOK := ok|fail
+//	                                               KILL refuse: the master answers the FIRST KILL call that names a task of the class with an error
+//	                                               (HTTP 503, a transient scheduler-API fault): the call fails at the core, the task keeps running, no
+//	                                               KILL is counted for it. (mesos-go drops the subscription after any failed call: the KILL calls that
+//	                                               follow in the same loop fail at the client until the controller has re-subscribed.)
 //	ROUND := (OP+)                                 the operations of a round are issued concurrently; a round ends when all returned
 //	OP    := (new K) | (ctl K EV) | (destroy K FORCE ALLOWRUNNING KEEP) | (cleanup) | (killenv K) | (rel K)
 //	       | (newd K FORCE ALLOWRUNNING KEEP)      NewEnvironment K and, WHILE its deployment is in flight, DestroyEnvironment on it: the
@@ -26,6 +30,10 @@
 //	                                               In the round of `(new K)` (after it, once at most): the failure hits while the creation
 //	                                               is inside CONFIGURE — the harness holds the CONFIGURE reaction of another task role
 //	                                               of K (one scripted to fail, else the first) on another host until the failure is noted
+//	       | (idle MS)                             the harness lets MS milliseconds pass (≤ 5000); nothing is concluded from it. (The core's scheduler
+//	                                               controller re-subscribes at once after a dropped subscription only if its registration back-off
+//	                                               token — one per second — is unspent: what happens after a failed Mesos call depends on how long
+//	                                               the core has been connected.)
 //	EV    := START | STOP | CONFIGURE | RESET
 //
 // Host h1,h2 belong to detector ITS, h3 to TPC, h4 to TST. Environment K is
@@ -198,10 +206,15 @@ func Parse(input string) (*Scenario, error) {
 					return nil, fmt.Errorf("op %s names no task role", o)
 				}
 			case "cleanup":
+			case "idle":
+				if o.Len() != 2 || o.At(1).Int() < 0 || o.At(1).Int() > 5000 {
+					return nil, fmt.Errorf("bad op %s", o)
+				}
+				op.J = o.At(1).Int()
 			default:
 				return nil, fmt.Errorf("bad op %s", o)
 			}
-			if op.Kind != "cleanup" && (op.K < 0 || op.K >= len(sc.Envs)) {
+			if op.Kind != "cleanup" && op.Kind != "idle" && (op.K < 0 || op.K >= len(sc.Envs)) {
 				return nil, fmt.Errorf("op %s names no environment", o)
 			}
 			if op.Kind == "new" || op.Kind == "newd" {
@@ -242,7 +255,7 @@ func Parse(input string) (*Scenario, error) {
 					return nil, fmt.Errorf("op %s: no task role on another host to hold the configuration", o)
 				}
 				sc.CfgHold[op.K] = hold
-			} else if op.Kind != "cleanup" && op.Kind != "rel" && (!created[op.K] || newHere[op.K]) {
+			} else if op.Kind != "cleanup" && op.Kind != "idle" && op.Kind != "rel" && (!created[op.K] || newHere[op.K]) {
 				return nil, fmt.Errorf("op %s on an environment not created in an earlier round", o)
 			}
 			ops = append(ops, op)
@@ -398,6 +411,19 @@ func Run(input string) (string, error) {
 		return "", err
 	}
 	defer w.Stop()
+	defer func() {
+		if dir := os.Getenv("OWNH_TRACE"); dir != "" {
+			// diagnosis only: the master's call/event trace and the core's log of this scenario
+			os.MkdirAll(dir, 0o755)
+			var tb strings.Builder
+			for _, rec := range w.Trace() {
+				fmt.Fprintf(&tb, "%s %d %s %s tasks=%v http=%d state=%s delivered=%v %s\n", rec.When.Format("15:04:05.000"), rec.Seq, rec.Dir, rec.Type, rec.TaskIDs, rec.HTTP, rec.State, rec.Delivered, rec.MsgDetail)
+			}
+			os.WriteFile(fmt.Sprintf("%s/%d.trace", dir, os.Getpid()), []byte(tb.String()), 0o644)
+			b, _ := os.ReadFile(w.CoreLog())
+			os.WriteFile(fmt.Sprintf("%s/%d.corelog", dir, os.Getpid()), b, 0o644)
+		}
+	}()
 	for h := 1; h <= 4; h++ {
 		w.AddAgent(sim.AgentSpec{Host: fmt.Sprintf("h%d", h), Detector: hostDet[h]})
 	}
@@ -461,6 +487,8 @@ func Run(input string) (string, error) {
 				w.SetOutcome(sel, sim.EvKill, sim.Outcome{Kind: sim.OK, MesosState: mesos.TASK_FAILED})
 			case "delay":
 				w.SetOutcome(sel, sim.EvKill, sim.Outcome{Kind: sim.OK, Delay: 40 * time.Millisecond})
+			case "refuse":
+				w.SetOutcome(sel, sim.EvKill, sim.Outcome{Kind: sim.Undeliverable, Times: 1})
 			}
 			if ro.Kind == "H" {
 				kind := sim.OK
@@ -483,6 +511,14 @@ func Run(input string) (string, error) {
 
 	obs := sx.L()
 	for _, round := range sc.Rounds {
+		// a Mesos call that failed at the core (a refused KILL, say) makes its scheduler client drop the subscription; the
+		// controller re-subscribes by itself (registration back-off: at most about a second). A round is issued to a core that
+		// is connected (reaching the ceiling = inconclusive).
+		if !w.Master.Subscribed() {
+			if err := sim.Poll("core's scheduler subscribed again", Ceiling, func() (bool, error) { return w.Master.Subscribed() || !w.CoreAlive(), nil }); err != nil {
+				return "", err
+			}
+		}
 		res := make([]*sx.Node, len(round))
 		errs := make([]error, len(round))
 		var wg sync.WaitGroup
@@ -719,6 +755,9 @@ func (r *runner) do(op Op) (*sx.Node, error) {
 		return sx.L(sx.A("ok"), sx.I(len(rep.GetKilledTasks()))), nil
 	case "rel":
 		r.w.Release(fmt.Sprintf("L%d", op.K))
+		return sx.L(sx.A("ok")), nil
+	case "idle":
+		time.Sleep(time.Duration(op.J) * time.Millisecond)
 		return sx.L(sx.A("ok")), nil
 	case "xfail", "afail":
 		return r.lose(op)
@@ -1267,8 +1306,14 @@ func (r *runner) settledSnapshot() (*sx.Node, error) {
 	}
 }
 
-// acked: every delivered UPDATE carrying a UUID was acknowledged.
+// acked: every delivered UPDATE carrying a UUID was acknowledged. (An acknowledgement that failed at the core —
+// its scheduler client was disconnected, e.g. after a refused call — never reaches the master: the master sends the
+// update again after the next SUBSCRIBE, so the counts of the trace no longer pair up; the master's own list of
+// unacknowledged updates being empty says the same thing.)
 func (r *runner) acked() bool {
+	if r.w.Master.Unacked() == 0 {
+		return true
+	}
 	ups, acks := 0, 0
 	for _, rec := range r.w.Trace() {
 		switch {
